@@ -8,13 +8,17 @@ From Zix.gen Require Import Leaf Constants.
 Local Open Scope Z_scope.
 Ltac Zify.zify_post_hook ::= Z.div_mod_to_equations.
 
+(* every if / ?: of the regenerated term is split, the arithmetic left is linear: a rewrite of the C function into
+   early returns or with the comparison turned round keeps the proof checking *)
+Ltac break_ifs :=
+  repeat match goal with |- context [if ?c then _ else _] => let E := fresh "E" in destruct c eqn:E end.
+
 Theorem leaf_get_block_size_is_model :
   forall b1 b2, Copy.leaf_zix_get_block_size_dom b1 b2 ->
     Copy.leaf_zix_get_block_size b1 b2 = CopyModel.get_block_size b1 b2.
 Proof.
   intros b1 b2 _. unfold Copy.leaf_zix_get_block_size, CopyModel.get_block_size. cbv zeta.
-  destruct (0 <? b1) eqn:E1; destruct (0 <? b2) eqn:E2; cbn [andb]; try reflexivity.
-  destruct (b2 <? b1) eqn:E3; f_equal; lia.
+  break_ifs; lia.
 Qed.
 Print Assumptions leaf_get_block_size_is_model.
 
@@ -22,5 +26,6 @@ Theorem stack_buffer_sizes_are_model :
   Copy.copy_file_stack_buf = Z.of_nat CopyModel.stack_buf_size /\
   Copy.file_equals_stack_a = Z.of_nat CopyModel.stack_buf_size /\
   Copy.file_equals_stack_b = Z.of_nat CopyModel.stack_buf_size.
-Proof. repeat split; reflexivity. Qed.
+Proof. repeat split; reflexivity.
+Qed.
 Print Assumptions stack_buffer_sizes_are_model.
